@@ -224,11 +224,35 @@ func (fx *FnExec) subRef(structT types.Type, field int, ref *Term) *Term {
 	st := under(structT).(*types.Struct)
 	name := "sub|" + typeKey(structT) + "|" + st.Field(field).Name()
 	t := fx.c.App(name, RefSort, ref)
+	fx.subNonNil(t)
 	return t
 }
 
+// subNonNil: interior objects are never the nil reference.
+func (fx *FnExec) subNonNil(t *Term) {
+	if fx.subSeen == nil {
+		fx.subSeen = map[*Term]bool{}
+	}
+	if fx.subSeen[t] {
+		return
+	}
+	fx.subSeen[t] = true
+	c := fx.c
+	fx.assumeGlobal(c.Not(c.Eq(t, fx.nilRef())))
+	// interior objects are distinct from freshly allocated top-level objects, and the
+	// functions forming them are injective
+	fx.assumeGlobal(c.App("interior", BoolSort, t))
+	fx.assumeGlobal(c.Eq(c.App("owner", RefSort, t), t.Args[0]))
+	fx.assumeGlobal(c.Eq(c.App("kindOf", BV(32), t), c.BVInt(int64(fx.eng.typeTagByName(t.Name)), 32)))
+	if len(t.Args) == 2 {
+		fx.assumeGlobal(c.Eq(c.App("indexOf", BV(64), t), t.Args[1]))
+	}
+}
+
 func (fx *FnExec) elemRef(elemT types.Type, ref, idx *Term) *Term {
-	return fx.c.App("elem|"+typeKey(elemT), RefSort, ref, idx)
+	t := fx.c.App("elem|"+typeKey(elemT), RefSort, ref, idx)
+	fx.subNonNil(t)
+	return t
 }
 
 func (fx *FnExec) nilRef() *Term { return fx.c.Const("nil", RefSort) }
@@ -236,7 +260,11 @@ func (fx *FnExec) nilRef() *Term { return fx.c.Const("nil", RefSort) }
 func (fx *FnExec) newRef(what string) *Term {
 	r := fx.c.Fresh("new", RefSort)
 	fx.freshRefs = append(fx.freshRefs, r)
-	fx.assumeGlobal(fx.c.Not(fx.c.Eq(r, fx.nilRef())))
+	c := fx.c
+	fx.assumeGlobal(c.Not(c.Eq(r, fx.nilRef())))
+	fx.assumeGlobal(c.Not(c.App("interior", BoolSort, r)))
+	// allocation serial: distinct from every other allocation and from everything that existed at entry
+	fx.assumeGlobal(c.Eq(c.App("born", BV(32), r), c.BVInt(int64(len(fx.freshRefs)), 32)))
 	return r
 }
 
@@ -329,7 +357,8 @@ func (fx *FnExec) freshVal(t types.Type, name string) Val {
 	return nil
 }
 
-const maxLenBits = 62
+// lengths and offsets are below 2^46: an object cannot exceed the amd64 user address space
+const maxLenBits = 46
 
 func (fx *FnExec) assumeSliceInv(s SliceV) {
 	c := fx.c
